@@ -238,3 +238,26 @@ Proof.
     + exact (val_ok _ _ (s2b_val s2 now' (toQ now') Ty2 (val_refl _ Hn))).
     + exact (val_ok _ _ Vb).
 Qed.
+
+(* ---- several clocks: a change on clock c re-times the pending tasks of clock c and of no other clock ---- *)
+Lemma retime_on_find c s l id :
+  find_pend id (retime_on c s l) =
+  match find_pend id l with
+  | Some (k, p) => Some (if Nat.eqb k c then (c, retime s p) else (k, p))
+  | None => None
+  end.
+Proof.
+  induction l as [|[j [k p]] r IH]; [reflexivity|].
+  change (retime_on c s ((j, (k, p)) :: r))
+    with ((if Nat.eqb k c then (j, (c, retime s p)) else (j, (k, p))) :: retime_on c s r).
+  destruct (Nat.eqb k c) eqn:E; cbn [find_pend]; destruct (N.eqb id j).
+  - rewrite E. reflexivity.
+  - exact IH.
+  - rewrite E. reflexivity.
+  - exact IH.
+Qed.
+Lemma retime_on_other c s l id k p : find_pend id l = Some (k, p) -> k <> c ->
+  find_pend id (retime_on c s l) = Some (k, p).
+Proof.
+  intros H N. rewrite retime_on_find, H. apply Nat.eqb_neq in N. rewrite N. reflexivity.
+Qed.
